@@ -9,6 +9,7 @@ import (
 	"errors"
 	"fmt"
 	"reflect"
+	"sync"
 
 	"github.com/goark/go-cvss/cvsserr"
 	v2 "github.com/goark/go-cvss/v2/metric"
@@ -365,11 +366,34 @@ func Field(o any, name string) (val int, ok bool) {
 	if v.Kind() != reflect.Ptr || v.IsNil() {
 		return 0, false
 	}
-	f := v.Elem().FieldByName(fieldName(name))
-	if !f.IsValid() {
+	idx, found := fieldIndex(v.Elem().Type(), fieldName(name))
+	if !found {
 		return 0, false
 	}
+	f := v.Elem().FieldByIndex(idx) // panics on a nil embedded pointer: recovered above
 	return int(f.Int()), true
+}
+
+var fieldIdx sync.Map // reflect.Type -> map[string][]int
+
+func fieldIndex(t reflect.Type, name string) ([]int, bool) {
+	type key struct {
+		t reflect.Type
+		n string
+	}
+	if v, ok := fieldIdx.Load(key{t, name}); ok {
+		if v == nil {
+			return nil, false
+		}
+		return v.([]int), true
+	}
+	sf, ok := t.FieldByName(name)
+	if !ok || sf.Type.Kind() != reflect.Int {
+		fieldIdx.Store(key{t, name}, nil)
+		return nil, false
+	}
+	fieldIdx.Store(key{t, name}, sf.Index)
+	return sf.Index, true
 }
 
 // SetField assigns the exported field named like the metric.
@@ -392,4 +416,18 @@ func V3Ver(o any) string {
 		return x.Ver.String()
 	}
 	panic("lib.V3Ver")
+}
+
+// SetV3Ver assigns the Ver field of a v3 object.
+func SetV3Ver(o any, v int) {
+	switch x := o.(type) {
+	case *v3.Base:
+		x.Ver = v3.Version(v)
+	case *v3.Temporal:
+		x.Ver = v3.Version(v)
+	case *v3.Environmental:
+		x.Ver = v3.Version(v)
+	default:
+		panic("lib.SetV3Ver")
+	}
 }
